@@ -523,7 +523,14 @@ func varintReadLeaf(d *DPath, stream bool) string {
 						hi = v.Int64()
 					}
 				}
-				if al, isAlloc := a.X.(*ssa.Alloc); isAlloc && (al.Comment == "makeslice" || isByteArrayAlloc(al)) {
+				if al, isAlloc := a.X.(*ssa.Alloc); isAlloc && (al.Comment == "makeslice" || isByteArrayAlloc(al)) && hi >= 0 && hi-lo < arrayLen(al) && subSliceFilled(d, al, lo, hi) {
+					// a part b[lo:hi] of one buffer, filled on this path by an io.ReadFull into a slice of the
+					// buffer that covers it
+					nread = fmt.Sprint(hi - lo)
+					if lo != 1 {
+						nread += fmt.Sprintf("@%d", lo)
+					}
+				} else if isAlloc && (al.Comment == "makeslice" || isByteArrayAlloc(al)) {
 					if at, ok := al.Type().Underlying().(*types.Pointer).Elem().Underlying().(*types.Array); ok {
 						nread = fmt.Sprint(at.Len())
 						// a zeroed buffer of which only the first k bytes were filled by the one
@@ -850,4 +857,38 @@ func ruleWEnc(c *Ctx) {
 	}
 	c.Check(got == want, "W-enc", "EncodeParts", enc.Pos(), "EncodeParts writes prefix(part) · part for every part in order: "+shorten(got, 120),
 		"EncodeParts does not write, for every part, its push prefix followed by the whole part: layout "+shorten(got, 400)+" — expected "+shorten(want, 200))
+}
+
+// subSliceFilled: on the path an io.ReadFull fills al[l:h] with constant (path-resolved) bounds l <= lo, h >= hi,
+// and lo >= 1 or the whole is read at once (the marker byte read separately is not part of the payload).
+func subSliceFilled(d *DPath, al *ssa.Alloc, lo, hi int64) bool {
+	for _, c := range pathCalls(d) {
+		sc := c.Call.StaticCallee()
+		if sc == nil || sc.String() != "io.ReadFull" || len(c.Call.Args) != 2 {
+			continue
+		}
+		sl, ok := c.Call.Args[1].(*ssa.Slice)
+		if !ok || sl.X != ssa.Value(al) {
+			continue
+		}
+		l, h := int64(0), int64(-1)
+		if sl.Low != nil {
+			v, ok := constInt(d.Env.Val(sl.Low))
+			if !ok {
+				continue
+			}
+			l = v.Int64()
+		}
+		if sl.High != nil {
+			v, ok := constInt(d.Env.Val(sl.High))
+			if !ok {
+				continue
+			}
+			h = v.Int64()
+		}
+		if h >= 0 && l <= lo && h >= hi && l == lo && h == hi {
+			return true
+		}
+	}
+	return false
 }
